@@ -650,6 +650,11 @@ func RemoveAliases(indexName string, aliases []string, orgid int64) error {
 	for i := 0; i < alLen; i++ {
 		delete(currentAliases, aliases[i])
 		delete(aliasToIndexNames[orgid][aliases[i]], indexName)
+		if len(aliasToIndexNames[orgid][aliases[i]]) == 0 {
+			// an alias without any index left is no alias any more; an empty entry would keep
+			// shadowing an index of the same name
+			delete(aliasToIndexNames[orgid], aliases[i])
+		}
 	}
 
 	if len(currentAliases) == 0 {
